@@ -250,7 +250,7 @@ fn gen(maxc: usize) -> impl Fn(&mut EnumCtx) + Sync {
 
 pub fn run(tier: Tier) -> i32 {
     let mut run = Run::new("C17", tier.clone());
-    let maxc = if tier.is_thorough() { 8 } else { 4 };
+    let maxc = if tier.is_thorough() { 12 } else { 8 };
     let o = EnumOpts {
         sup: crate::sup::SupOpts {
             hang_secs: 20,
